@@ -157,6 +157,13 @@ class Gen:
         self.live[key].remove(tid); self.dead.setdefault(key, []).append(tid)
       return dict(base, op=op, id=tid)
     if op == 'checkEarlyStop':
+      # re-check the trial checked last (the recycled-record path) half of the time
+      last = getattr(self, 'last_es', {}).get(key)
+      if last is not None and r.random() < 0.5:
+        tid = last
+      if not hasattr(self, 'last_es'):
+        self.last_es = {}
+      self.last_es[key] = tid
       x = r.random()
       if x < max(0.15, self.fail_rate):
         es = {'kind': 'raise'}
@@ -251,3 +258,51 @@ def shrink(reqs, still_fails, budget=60):
         break
       n = min(len(cur), n * 2)
   return cur
+
+
+def matrix():
+  """Directed histories: every trial-level RPC on a trial in every state (and a missing one), and
+  every study-level RPC on a study in every state (and a missing one).  Each is a short prefix that
+  brings the object into the state, the call, and the same call once more (repeat / idempotence)."""
+  ok = lambda n, base: {'kind': 'ok', 'sugg': [{'params': base + i, 'md': []} for i in range(n)], 'delta': []}
+  create = {'op': 'createStudy', 'owner': 'o', 'display': 's', 'spec': 1, 'state': 'ACTIVE', 'md': []}
+  to_state = {
+      'REQUESTED': [{'op': 'createTrial', 'trial': {'state': 'REQUESTED', 'params': 5, 'meas': [], 'final': None, 'md': []}}],
+      'ACTIVE': [{'op': 'suggest', 'client': 'w1', 'count': 1, 'alg': ok(1, 10)}],
+      'STOPPING': [{'op': 'suggest', 'client': 'w1', 'count': 1, 'alg': ok(1, 10)}, {'op': 'stop', 'id': 1}],
+      'SUCCEEDED': [{'op': 'suggest', 'client': 'w1', 'count': 1, 'alg': ok(1, 10)}, {'op': 'complete', 'id': 1, 'final': [3, True]}],
+      'INFEASIBLE': [{'op': 'suggest', 'client': 'w1', 'count': 1, 'alg': ok(1, 10)},
+                     {'op': 'complete', 'id': 1, 'final': None, 'infeasible': True, 'reason': 'bad'}],
+      'DELETED': [{'op': 'suggest', 'client': 'w1', 'count': 1, 'alg': ok(1, 10)}, {'op': 'deleteTrial', 'id': 1}],
+      'MISSING': [],
+  }
+  trial_calls = [
+      {'op': 'getTrial', 'id': 1}, {'op': 'stop', 'id': 1}, {'op': 'addMeasurement', 'id': 1, 'm': [2, True]},
+      {'op': 'complete', 'id': 1, 'final': [4, True]}, {'op': 'complete', 'id': 1, 'final': None},
+      {'op': 'complete', 'id': 1, 'final': None, 'infeasible': True, 'reason': 'x'}, {'op': 'deleteTrial', 'id': 1},
+      {'op': 'checkEarlyStop', 'id': 1, 'es': {'kind': 'ok', 'decisions': [[1, True]], 'delta': []}},
+      {'op': 'checkEarlyStop', 'id': 1, 'es': {'kind': 'raise'}},
+      {'op': 'updateMetadata', 'us': [{'t': 1, 'kv': ['', 'k', 'v']}]},
+  ]
+  out = []
+  for st, pre in to_state.items():
+    for call in trial_calls:
+      out.append([dict(create)] + [dict(p) for p in pre] + [dict(call), dict(call), {'op': 'listTrials'}])
+  study_states = {'ACTIVE': [], 'INACTIVE': [{'op': 'setStudyState', 'state': 'INACTIVE'}],
+                  'COMPLETED': [{'op': 'setStudyState', 'state': 'COMPLETED'}], 'DELETED': [{'op': 'deleteStudy'}]}
+  study_calls = [
+      {'op': 'getStudy'}, {'op': 'listStudies'}, {'op': 'deleteStudy'}, {'op': 'setStudyState', 'state': 'ACTIVE'},
+      {'op': 'createTrial', 'trial': {'state': 'REQUESTED', 'params': 6, 'meas': [], 'final': None, 'md': []}},
+      {'op': 'suggest', 'client': 'w2', 'count': 2, 'alg': ok(2, 20)}, {'op': 'suggest', 'client': 'w2', 'count': 1, 'alg': {'kind': 'other'}},
+      {'op': 'getOperation', 'client': 'w1', 'num': 1}, {'op': 'listTrials'}, {'op': 'listOptimal'},
+      {'op': 'updateMetadata', 'us': [{'t': None, 'kv': ['', 'k', 'v']}]},
+      {'op': 'createStudy', 'owner': 'o', 'display': 's', 'spec': 1, 'state': 'ACTIVE', 'md': []},
+  ]
+  base = [dict(create), {'op': 'suggest', 'client': 'w1', 'count': 1, 'alg': ok(1, 10)}]
+  for st, pre in study_states.items():
+    for call in study_calls:
+      out.append([dict(b) for b in base] + [dict(p) for p in pre] + [dict(call), dict(call)])
+  for call in study_calls:
+    if call['op'] != 'createStudy':
+      out.append([dict(call)])          # nothing exists at all
+  return out
